@@ -107,7 +107,7 @@ def _run_block(args):
     prop, famname, block, tier = args
     fam = _family(prop, famname)
     t0 = time.time()
-    n = steps = 0
+    n = steps = extra_states = 0
     casehashes = set()
     outcomes = set()
     viols = {}
@@ -116,6 +116,9 @@ def _run_block(args):
         for case in fam.cases(block, tier):
             outcome, vs, st = safe_run_case(prop, fam, case)
             n += 1
+            if isinstance(st, tuple):  # (implementation calls, states explored inside this case by a nested search)
+                st, inner = st
+                extra_states += inner
             steps += st
             casehashes.add(h64(jdump(case)))
             if len(outcomes) < OUTCOME_CAP:
@@ -129,7 +132,7 @@ def _run_block(args):
                     viols[sig]['count'] += 1
     except Exception:
         return {'error': 'family %s block %r: %s' % (famname, block, traceback.format_exc())}
-    return {'family': famname, 'n': n, 'steps': steps, 'states': len(casehashes), 'outcomes': outcomes,
+    return {'family': famname, 'n': n, 'steps': steps, 'states': len(casehashes) + extra_states, 'outcomes': outcomes,
             'viols': viols, 'samples': samples, 'wall': time.time() - t0}
 
 
